@@ -832,19 +832,23 @@ def client_readback_stage(c):
           prog.append(['read', h])
       except Exception as e:  # pylint: disable=broad-except
         raise core.InfraError('client read-back program step %s raised %s: %s' % (prog[-1:] or kind, type(e).__name__, str(e)[:200]))
-      stored = svz.StudyConfig.from_proto(sv.GetStudy(vsp.GetStudyRequest(name='owners/o/studies/s')).study_spec).metadata
-      want = sorted((tuple(ns), k, v if isinstance(v, str) else repr(v)) for ns in stored.namespaces() for k, v in stored.abs_ns(ns).items())
+      # what the service stores, read from the wire message itself (not through StudyConfig.from_proto, which is the
+      # code under test on the handle side); values are typed: the string '' and an empty Any are different things
+      def typed(v):
+        return ('str', v) if isinstance(v, str) else ('any', getattr(v, 'type_url', type(v).__name__), bytes(getattr(v, 'value', b'')).hex())
+      spec = sv.GetStudy(vsp.GetStudyRequest(name='owners/o/studies/s')).study_spec
+      want = sorted((tuple(vz.Namespace.decode(kv.ns)), kv.key, typed(kv.proto if kv.HasField('proto') else kv.value)) for kv in spec.metadata)
       c.traces += 1
       for hi, hd in enumerate(hs):
         got_md = hd.materialize_study_config().metadata
-        got = sorted((tuple(ns), k, v if isinstance(v, str) else repr(v)) for ns in got_md.namespaces() for k, v in got_md.abs_ns(ns).items())
+        got = sorted((tuple(ns), k, typed(v)) for ns in got_md.namespaces() for k, v in got_md.abs_ns(ns).items())
         if got != want and bad is None:
           missing = [x for x in want if x not in got]
           extra = [x for x in got if x not in want]
           bad = (si, hi, missing, extra)
       # user entries: last writer wins (the algorithm writes reserved namespaces only)
       users = {(ns, k): v for ns, k, v in want if not (ns and ns[0].startswith('designer_policy'))}
-      if bad is None and users != {(tuple(ns), k): v for (ns, k), v in last.items()}:
+      if bad is None and users != {(tuple(ns), k): ('str', v) for (ns, k), v in last.items()}:
         bad = (si, -1, sorted(users.items()), sorted(last.items()))
       if bad is not None:
         break
